@@ -1,3 +1,4 @@
+import IndicatifModel.Proofs.GenBridgePad
 import IndicatifModel.Model.Pad
 /-!
 # C12 — Field width, alignment and truncation contract
@@ -169,5 +170,15 @@ theorem C12_wide_msg_fills_the_line (s : List G) (hp : Plain s) (W rest : Nat) (
   by_cases h : cols s ≤ W - rest
   · rw [(C12_pad s (W - rest) align true h).1]; omega
   · rw [(C12_trunc_ascii_partial s hp (W - rest) align (by omega)).2]; omega
+
+/-- **the source as translated** (`tools/rs2lean.py`, regenerated on every run): the integer skeleton of
+`<PaddedStringDisplay as Display>::fmt` — which branch is taken, the byte bounds of the truncating slice for each alignment, the
+left and right paddings — fed the column width and the byte length of the content, yields exactly the model's `pad`; its byte
+arithmetic (`self.str.len() - excess`) cannot underflow because no string has more columns than bytes. So `C12_pad`,
+`C12_no_trunc`, `C12_trunc_ascii_partial` and the F11 witness speak about what the source says now. -/
+theorem C12_source_pad (s : List G) (width : Nat) (align : Align) (truncate : Bool) (hcb : cols s ≤ bytes s) :
+    (Generated.paddedFmt (cols s) (bytes s) width truncate (GenBridge.toGenAlign align)).map (GenBridge.applyAction s)
+      = some (pad s width align truncate) :=
+  GenBridge.gen_pad s width align truncate hcb
 
 end IndicatifModel.Pad
